@@ -167,11 +167,69 @@ fn redeclared_alg(ctx: &mut Ctx, ic: &IssuedCase, case: &Value) {
     }
 }
 
+/// A validly signed payload that is NOT conformant: an array element that carries a member named `...` next to
+/// a claim signed in the clear (a new element, or an existing placeholder given such a sibling). The
+/// specification wants it rejected (C12); C03 says what must hold if it is not: whatever the verifier returns,
+/// it is the signed claims with some *disclosable* claims absent - the claim signed in the clear is still there.
+pub fn clear_claims_survive(ctx: &mut Ctx, case: &Value) {
+    crate::real::set_current(case);
+    ctx.report.evaluations += 1;
+    let ic = match issue_ref(ctx, case) { Some(ic) => ic, None => return };
+    let mut rng = Rng::fork(ctx.seed ^ 0xC1EA, crate::report::hash_of(&case["tree"]));
+    let mut payload = ic.payload.clone();
+    let (mut objs, mut arrs) = (Vec::new(), Vec::new());
+    super::c12::collect_sites(&payload, &mut Vec::new(), &mut objs, &mut arrs);
+    if arrs.is_empty() { ctx.report.bump("clear-survive:no-array"); return; }
+    let site = arrs[rng.below(arrs.len())].clone();
+    let sentinel = format!("CLEAR*{}*", rng.next() % 100_000);
+    {
+        let a = super::c12::at_mut(&mut payload, &site).as_array_mut().unwrap();
+        let existing = a.iter().position(|x| x.get("...").is_some());
+        match existing {
+            Some(k) if rng.chance(1, 2) => { a[k]["title"] = json!(sentinel); }
+            _ => { let at = rng.below(a.len() + 1); a.insert(at, json!({"...": "to be continued", "title": sentinel})); }
+        }
+    }
+    let mut header = sdjwt::Header::new(ic.alg.clone());
+    header.typ = Some("sd-jwt".to_string());
+    let jwt = match real::sign(&header, &payload, &keys::enc_key(keys::family(&ic.alg), 0)) { Out::Ok(j) => j, _ => return };
+    let dec = keys::dec_key(keys::family(&ic.alg), 0);
+    let validation = ic.validation();
+    let own: Vec<String> = ic.marks.iter().map(|m| ic.disc_of(m.id)).collect();
+    for l in [own.clone(), vec![]] {
+        let token = format!("{}~{}{}", jwt, l.join("~"), if l.is_empty() { "" } else { "~" });
+        let vv = real::verifier_verify(&token, &dec, &validation, None);
+        ctx.report.bump(&format!("clear-survive:{}", vv.class()));
+        let mut c2 = case.clone();
+        c2["stream"] = json!("clear-survive");
+        c2["lists"] = json!([l]);
+        let real_out = vv.clone().map(|(_, c)| (c, None));
+        let cmp = Compare { prop: "C03", entry: "Verifier::verify", case: &c2 };
+        compare_restoration(ctx, &cmp, &ic.sd_alg, &payload, &l, &real_out, None, None, false);
+        match &vv {
+            Out::Ok((_, c)) => {
+                if !serde_json::to_string(c).unwrap_or_default().contains(&sentinel) {
+                    ctx.report.diff("property", "Verifier::verify", "Verifier::verify:claim-signed-in-the-clear-is-missing", &c2, json!({"real": c, "signed_payload": payload, "missing": sentinel}));
+                }
+            }
+            Out::Panic(site) => ctx.report.diff("property", "Verifier::verify", &format!("Verifier::verify:panic:{}", site.split(' ').next().unwrap_or("")), &c2, json!({"panic": site})),
+            Out::Err(..) => {}
+        }
+    }
+}
+
 pub fn run(ctx: &mut Ctx, replay: Option<&Value>) {
-    ctx.report.rule = "own-issued (75%) and reference-issued (25%) unbound tokens; per token 6 presented lists drawn from: subsets, permutations, duplicates, disclosures of a second issuance of the same claims (foreign), one flipped / truncated / non-alphabet character, well-formed base64 of non-JSON / non-array / wrong arity / non-string or reserved name, empty segments; Verifier::verify on harness-assembled jwt~L~; oracle: Err or project(S) with S within the ancestor-closed part of L (exactly that for clean ancestor-closed lists); non-trivial = distinct (tree, lists) with a nested or positional mark".to_string();
+    ctx.report.rule = "own-issued (75%) and reference-issued (25%) unbound tokens; per token 6 presented lists drawn from: subsets, permutations, duplicates, disclosures of a second issuance of the same claims (foreign), one flipped / truncated / non-alphabet character, well-formed base64 of non-JSON / non-array / wrong arity / non-string or reserved name, empty segments; plus validly signed NON-conformant payloads (an array element with a `...` member next to a claim signed in the clear): if accepted, that claim must still be there; Verifier::verify on harness-assembled jwt~L~; oracle: Err or project(S) with S within the ancestor-closed part of L (exactly that for clean ancestor-closed lists); non-trivial = distinct (tree, lists) with a nested or positional mark".to_string();
     if let Some(case) = replay {
-        run_case(ctx, case);
+        if case["stream"] == json!("clear-survive") { clear_claims_survive(ctx, case); } else { run_case(ctx, case); }
         return;
+    }
+    // validly signed but non-conformant payloads: a claim signed in the clear next to a `...` member
+    let m = ctx.count(150, 1_500);
+    for i in 0..m {
+        let mut rng = Rng::fork(ctx.seed ^ 0x5EED_C1EA, i);
+        let case = gen_ref_case(&mut rng, ctx.tier_thorough, 0);
+        clear_claims_survive(ctx, &case);
     }
     let n = ctx.count(2_500, 25_000);
     for i in 0..n {
